@@ -1,6 +1,7 @@
 import AasVerif.Lemmas.CacheLog
 import AasVerif.Lemmas.CacheQuiet
 import AasVerif.Model.CacheFlag
+import AasVerif.Model.CachePickle
 import AasVerif.Gen.Cache
 /-!
 # C23 — model caching is opt-in and transparent
@@ -84,5 +85,21 @@ example :
     (s.procs 2).map (·.mode) = some (.finished (.ok 3)) ∧ (s.procs 2).map (·.loaded) = some (some 3) ∧
     (s.procs 3).map (·.mode) = some (.finished (.err 9)) ∧ (s.procs 4).map (·.mode) = some (.finished (.err 9)) := by
   decide
+
+/-- Every class of `intermediate/_types.py` with pickling hooks recomputes in `__setstate__` exactly
+what `__getstate__` drops, with the same `_compute_*` function the constructor/setter path uses, and
+drops every `*_id_set` attribute (ids do not survive pickling). -/
+theorem pickle_hooks_ok : Gen.Cache.pickleHooks.all (·.ok) = true := by
+  decide +kernel
+
+/-- **pickle_roundtrip** (abstract): an object whose derived fields are the function `f` of its core
+fields — which is what `pickle_hooks_ok` establishes for the constructor path — is restored exactly
+by `unpickle ∘ pickle`. -/
+theorem pickle_roundtrip (f : List Nat → List Nat) (o : CachePickle.Obj) (h : o.WF f) :
+    CachePickle.unpickle f (CachePickle.pickle o) = o := by
+  cases o with
+  | mk core derived =>
+    simp only [CachePickle.Obj.WF] at h
+    simp [CachePickle.unpickle, CachePickle.pickle, h]
 
 end AasVerif.Props.C23
